@@ -255,6 +255,17 @@ func DivPair(t *rapid.T, ctx core.Ctx) (x, y core.Dec) {
 		}
 		y.Exp = int32(rapid.IntRange(-20, 20).Draw(t, "ye"))
 		x.Exp = y.Exp + int32(g)
+		if gen.Pick(t, 3, "finer") == 0 {
+			// the other way round: x is (a neighbour of) y written g places finer
+			y.Coeff = gen.Digits(t, p+2, "ysmall")
+			if y.Coeff == "0" {
+				y.Coeff = "5"
+			}
+			xv := new(big.Int).Mul(y.Big(), ref.Pow10(int64(g)))
+			xv.Add(xv, big.NewInt(int64(rapid.IntRange(-1, 1).Draw(t, "eqd"))))
+			x = gen.FromBig(xv, int64(y.Exp)-int64(g))
+			x.Neg = rapid.Bool().Draw(t, "xneg2")
+		}
 	case 0, 1: // independent
 		x = gen.Finite(t, ctx, "x")
 		x.Exp = clamp32(int64(y.Exp) + int64(rapid.IntRange(-2*p-4, 2*p+4).Draw(t, "gap")))
@@ -309,6 +320,9 @@ func clamp32(e int64) int32 {
 // in [Etiny-2, Emax+2].
 func QuantExp(t *rapid.T, ctx core.Ctx, x core.Dec) int32 {
 	p := int(ctx.P)
+	if gen.Pick(t, 60, "qextreme") == 0 { // the ends of the int32 argument range
+		return []int32{2147483647, -2147483648, 2147483646, -2147483647, 2147383648, -2147383648}[gen.Pick(t, 6, "qextv")]
+	}
 	if gen.Pick(t, 5, "qk") == 0 {
 		etiny := int(ctx.Emin) - p + 1
 		lo, hi := etiny-2, int(ctx.Emax)+2
@@ -344,6 +358,9 @@ func ReduceOperand(t *rapid.T, ctx core.Ctx) core.Dec {
 		return gen.Zero(t, ctx, "xz")
 	case 1, 2, 3:
 		z := rapid.IntRange(0, int(ctx.P)+5).Draw(t, "tz")
+		if gen.Pick(t, 10, "manyzeros") == 0 { // hundreds of trailing zeros (beyond the power-of-ten table)
+			z = rapid.IntRange(100, 1300).Draw(t, "tzbig")
+		}
 		if x.Coeff != "0" {
 			x.Coeff += strings.Repeat("0", z)
 			x.Exp = gen.Exponent(t, ctx, int64(len(x.Coeff)), "xe")
